@@ -336,8 +336,39 @@ class Interp(ExprMixin):
                 if cv is v0 or (type(cv) is type(v0) and cv == v0):
                     st.heap[k] = v1
 
+    def _reduce_call(self, node, st):
+        """functools.reduce(f, seq, init) is `acc = init; for x in seq: acc = f(acc, x)`: evaluated as that loop"""
+        f_node, seq_node, init_node = node.args
+        tmp = f'__reduce_{node.lineno}_{node.col_offset}'
+        cache = self.__dict__.setdefault('_reduce_stmts', {})
+        stmts = cache.get(id(node))
+        if stmts is None:
+            # built once per call site: the choices of forked re-executions are keyed by the identity of the nodes
+            stmts = ast.parse(f'{tmp} = 0\nfor {tmp}_x in 0:\n    {tmp} = 0').body
+            stmts[0].value = init_node
+            stmts[1].iter = seq_node
+            stmts[1].body[0].value = ast.Call(func=f_node, args=[ast.Name(id=tmp, ctx=ast.Load()), ast.Name(id=tmp + '_x', ctx=ast.Load())],
+                                              keywords=[])
+            for s_ in stmts:
+                ast.copy_location(s_, node)
+                for n_ in ast.walk(s_):
+                    if not hasattr(n_, 'lineno'):
+                        ast.copy_location(n_, node)
+                ast.fix_missing_locations(s_)
+            cache[id(node)] = stmts
+        # executed on the caller's state itself; a fork in the initial value re-executes the enclosing statement
+        for s_ in stmts:
+            cont, done = self.exec_stmt1(s_, st)
+            if not cont or cont[0] is not st:
+                return Poly.atom(('fresh', fresh_id(), 'reduce'))
+        v = st.env.get(tmp)
+        return v if v is not None else Poly.atom(('fresh', fresh_id(), 'reduce'))
+
     def e_Call(self, node, st):
         fn = node.func
+        if len(node.args) == 3 and not node.keywords and not getattr(self, 'comp_depth', 0) and \
+                (dotted(fn) or '') in ('functools.reduce', 'reduce') and 'reduce' not in st.env:
+            return self._reduce_call(node, st)
         args = []
         for a in node.args:
             if isinstance(a, ast.Starred):
